@@ -421,7 +421,7 @@ pub fn gen_scenario(seed: u64, large: u8) -> Scenario {
             continue;
         }
         // operations that meet a pool, a keyed map or an address get 3x the weight of the rest
-        let hot = op.large_ok || matches!(op.name, "stitch_triangulation" | "sweep_intersections" | "sweep_intersections_refs" | "interior_point" | "monotone_subdivision" | "par_iter_multipolygon" | "par_iter_multipoint_mls" | "unary_union_multi" | "intersection_poly_poly" | "constrained_triangulation_members" | "triangulation_overlapping" | "constrained_outer_triangulation" | "aggregates" | "geodesic_aggregates" | "concave_hull" | "k_nearest_concave_hull" | "outliers" | "transforms" | "traversals" | "collection_ops" | "misc_per_type" | "convex_hull" | "quick_and_graham_hull");
+        let hot = op.large_ok || matches!(op.name, "stitch_triangulation" | "sweep_intersections" | "sweep_intersections_refs" | "interior_point" | "monotone_subdivision" | "par_iter_multipolygon" | "par_iter_multipoint_mls" | "unary_union_multi" | "intersection_poly_poly" | "constrained_triangulation_members" | "triangulation_overlapping" | "constrained_outer_triangulation" | "aggregates" | "geodesic_aggregates" | "concave_hull" | "k_nearest_concave_hull" | "outliers" | "transforms" | "traversals" | "collection_ops" | "misc_per_type" | "convex_hull" | "quick_and_graham_hull" | "closest_point_many");
         if large == 0 && !hot && !rng.chance(1, 3) {
             continue;
         }
@@ -464,7 +464,13 @@ pub fn gen_scenario(seed: u64, large: u8) -> Scenario {
         if fam == "archipelago" && op.name.contains("triangulation") && op.name != "stitch_triangulation" {
             fam = "blobs";
         }
+        if large == 0 && op.name == "closest_point_many" && rng.chance(2, 3) {
+            fam = "lattice";
+        }
         let mut spec = inputs::gen_spec(&mut rng, fam, large);
+        if large == 0 && op.name == "closest_point_many" && fam == "lattice" {
+            spec.size = 9 + rng.below(6); // 81 .. 196 members
+        }
         if long_ring {
             spec.size = *rng.pick(&[1030usize, 2100, 4200, 8300]);
         }
